@@ -28,4 +28,16 @@ TEXT["C17"] = dict(
     level_note=NOTE_COMMON + "Memory model = SC lock word + permission transfer on release/acquire. Starvation-freedom not claimed.",
     technique="Lean 4 invariants over a lock/spin_cond transition system + extracted orderings + trace monitoring under a controlled scheduler",
 )
+TEXT["C01"] = dict(
+    level_text="Proof: the custody ledger (every message tag is in exactly one of: buffer, one waiter's slot, a receiving caller, destroyed, handed back) is an inductive invariant of the Lean model over every step — all API calls of both flavours, timed/try/drain/stream/close/drop, for every capacity, any number of waiters, including the hand-off windows between a peer's critical section and its final store — proved in Lean (Ledger.lean, Struct.lean; c01_received_once, c01_accounted, c01_exclusive), with proved counterexamples for the defective variants D1/D3 (non-vacuity). Tie: extractor facts (Tie.variant_good), sequential differential with tagged drop-counting payloads, and scheduled multi-threaded runs of the real crate whose tag ledger is checked independently of the model.",
+    design_ref="DESIGN.md §5 C01, §3.4",
+    level_note=NOTE_COMMON + "Granularity: critical sections + final stores; finer interleavings inside a critical section are excluded by the lock (C17), inside the hand-off by the signal protocol (C06/C07).",
+    technique="Lean 4 inductive invariant (custody ledger) over an interleaving model + differential + scheduled-run ledger oracle",
+)
+TEXT["C05"] = dict(
+    level_text="Proof: Lean theorems c05_at_most_once (drop log duplicate-free, disjoint from received and buffered values), c05_never_leaked, c05_option / c05_try_option (Option variants hand the value back exactly on failure/refusal, non-Option variants destroy it once), c05_no_leak (after the last handle is gone every offered value is received, destroyed once, or handed back) for every reachable state of the model; negative theorem for the D1 variant. Tie: extractor cleanup facts (Tie.variant_good), sequential differential with drop-counting payloads of four size classes, scheduled concurrent runs with the drop ledger oracle.",
+    design_ref="DESIGN.md §5 C05",
+    level_note=NOTE_COMMON,
+    technique="Lean 4 inductive invariant (custody ledger) + differential + scheduled-run drop ledger",
+)
 NOT_YET = {}
